@@ -245,7 +245,7 @@ impl ImportTracker {
             }
             IrExprKind::Format { parts } => {
                 for part in parts {
-                    if let super::super::expr::FormatPart::Expr(e) = part {
+                    if let super::super::expr::FormatPart::Expr(e) | super::super::expr::FormatPart::DebugExpr(e) = part {
                         self.scan_expr(e);
                     }
                 }
